@@ -989,7 +989,8 @@ theorem inv_step {s : St} (h : Inv s) (hw : WaitInv s) (l : Label) :
             have cu : SameCore { (releaseAcquired (setTask s t { x with pc := .done }) x.key (.conn c)) with
                   idle := (releaseAcquired (setTask s t { x with pc := .done }) x.key (.conn c)).idle ++ [c] }
                 { (releaseAcquired (setTask s t { x with pc := .done }) x.key (.conn c)) with
-                  idle := (releaseAcquired (setTask s t { x with pc := .done }) x.key (.conn c)).idle ++ [c], timer := true,
+                  idle := (releaseAcquired (setTask s t { x with pc := .done }) x.key (.conn c)).idle ++ [c],
+                  timer := (releaseAcquired (setTask s t { x with pc := .done }) x.key (.conn c)).timer || decide (0 < (releaseAcquired (setTask s t { x with pc := .done }) x.key (.conn c)).ka),
                   conns := (releaseAcquired (setTask s t { x with pc := .done }) x.key (.conn c)).conns.modify c
                     (fun y => { y with usedAt := (releaseAcquired (setTask s t { x with pc := .done }) x.key (.conn c)).now }) } := by
               constructor <;> intros <;> rfl
